@@ -135,4 +135,45 @@ theorem tile_find : ∀ (spans : List (Length × Length × Nat)) (lo p : Nat), s
     · obtain ⟨sp, hsp, h3⟩ := tile_find rest e.bytes p h.2 (by omega) (by simpa [spansEnd] using h2)
       exact ⟨sp, List.mem_cons_of_mem _ hsp, h3⟩
 
+theorem tile_iff : ∀ (spans : List (Length × Length × Nat)) (lo : Nat),
+    spansTile lo spans = (spansChain lo spans && spansMono spans)
+  | [], _ => by simp [spansTile, spansChain, spansMono]
+  | (s, e, l) :: rest, lo => by
+    have ih := tile_iff rest e.bytes
+    simp only [spansTile, spansChain, spansMono, List.all_cons, ih] at *
+    cases decide (s.bytes = lo) <;> cases decide (s.bytes ≤ e.bytes) <;> simp
+
+theorem chain_append : ∀ (xs : List (Length × Length × Nat)) (lo : Nat) (x : Length × Length × Nat),
+    spansChain lo (xs ++ [x]) = (spansChain lo xs && decide (x.1.bytes = spansEnd lo xs)) ∧
+    spansEnd lo (xs ++ [x]) = x.2.1.bytes
+  | [], lo, (s, e, l) => by simp [spansChain, spansEnd]; rfl
+  | (s, e, l) :: rest, lo, x => by
+    have ih := chain_append rest e.bytes x
+    simp [spansChain, spansEnd, ih.1, ih.2, Bool.and_assoc]; rfl
+
+/-- One iteration appends exactly the span from the current position to the new position. -/
+theorem loopBody_spans (al : AliasTable) (fixed : Bool) (diffs : List TSRange) (tf : Nat) (s : LoopSt) :
+    ∃ l, (loopBody al fixed diffs tf s).spans = (s.position, (loopBody al fixed diffs tf s).position, l) :: s.spans := by
+  unfold loopBody
+  exact ⟨_, rfl⟩
+
+/-- The spans recorded by the loop are contiguous and end at the current position. -/
+theorem mainLoop_chain (al : AliasTable) (fixed : Bool) (diffs : List TSRange) (tf : Nat) (lo : Nat) :
+    ∀ (fuel : Nat) (s : LoopSt), spansChain lo s.spans.reverse = true → spansEnd lo s.spans.reverse = s.position.bytes →
+      spansChain lo (mainLoop al fixed diffs tf fuel s).spans.reverse = true ∧
+      spansEnd lo (mainLoop al fixed diffs tf fuel s).spans.reverse = (mainLoop al fixed diffs tf fuel s).position.bytes
+  | 0, s, h1, h2 => by simpa [mainLoop] using ⟨h1, h2⟩
+  | fuel + 1, s, h1, h2 => by
+    obtain ⟨l, hl⟩ := loopBody_spans al fixed diffs tf s
+    have step : spansChain lo (loopBody al fixed diffs tf s).spans.reverse = true ∧
+        spansEnd lo (loopBody al fixed diffs tf s).spans.reverse = (loopBody al fixed diffs tf s).position.bytes := by
+      rw [hl, List.reverse_cons]
+      have := chain_append s.spans.reverse lo (s.position, (loopBody al fixed diffs tf s).position, l)
+      rw [this.1, this.2, h1, h2]; simp
+    unfold mainLoop
+    simp only
+    split
+    · exact mainLoop_chain al fixed diffs tf lo fuel _ step.1 step.2
+    · exact step
+
 end TsVerif.C04
